@@ -633,7 +633,6 @@ class ExprLambda(Expr):
 
     def iterate(self, *, flat: bool = True) -> Iterator[str | Expr]:
         pos_only = False
-        pos_or_kw = False
         kw_only = False
         length = len(self.parameters)
         yield "lambda"
@@ -642,26 +641,28 @@ class ExprLambda(Expr):
         for index, parameter in enumerate(self.parameters, 1):
             if parameter.kind is ParameterKind.positional_only:
                 pos_only = True
-            elif parameter.kind is ParameterKind.var_positional:
+            elif pos_only:
+                # The `/` marker closes the positional-only parameters, ahead of any `*` or `**`.
+                pos_only = False
+                yield "/, "
+            if parameter.kind is ParameterKind.var_positional:
                 # Keyword-only parameters following `*args` need no bare `*` marker.
                 kw_only = True
                 yield "*"
             elif parameter.kind is ParameterKind.var_keyword:
                 yield "**"
-            elif parameter.kind is ParameterKind.positional_or_keyword and not pos_or_kw:
-                pos_or_kw = True
             elif parameter.kind is ParameterKind.keyword_only and not kw_only:
                 kw_only = True
                 yield "*, "
-            if parameter.kind is not ParameterKind.positional_only and pos_only:
-                pos_only = False
-                yield "/, "
             yield parameter.name
             if parameter.default and parameter.kind not in (ParameterKind.var_positional, ParameterKind.var_keyword):
                 yield "="
                 yield from _yield(parameter.default, flat=flat, precedence=_PREC_TEST)
             if index < length:
                 yield ", "
+        if pos_only:
+            # Only positional-only parameters: the marker comes last.
+            yield ", /"
         yield ": "
         yield from _yield(self.body, flat=flat, precedence=_PREC_TEST)
 
